@@ -605,7 +605,11 @@ impl BuiltInFunction {
                     return Err(RuntimeError::from("median requires at least one number"));
                 }
 
-                nums.sort_by(|a, b| a.total_cmp(b));
+                // NaN sorts last whatever its sign bit (as in `sort`): the sign of a NaN is not observable otherwise
+                nums.sort_by(|a, b| {
+                    a.partial_cmp(b)
+                        .unwrap_or_else(|| a.is_nan().cmp(&b.is_nan()))
+                });
                 let len = nums.len();
                 if len % 2 == 0 {
                     Ok(Value::Number((nums[len / 2 - 1] + nums[len / 2]) / 2.0))
@@ -632,7 +636,11 @@ impl BuiltInFunction {
                     return Err(RuntimeError::from("percentile requires at least one number"));
                 }
 
-                nums.sort_by(|a, b| a.total_cmp(b));
+                // NaN sorts last whatever its sign bit (as in `sort`): the sign of a NaN is not observable otherwise
+                nums.sort_by(|a, b| {
+                    a.partial_cmp(b)
+                        .unwrap_or_else(|| a.is_nan().cmp(&b.is_nan()))
+                });
                 let index = (p / 100.0 * (nums.len() - 1) as f64).round() as usize;
 
                 Ok(Value::Number(nums[index]))
